@@ -24,7 +24,7 @@ def sessions(ctx, prop):
     by the rule they break (queue / byte-stream rules -> C16, everything else -> C17)."""
     q = ctx.quick
     n = 64 if q else 1200
-    scen = ["normal", "big", "quit", "quit2", "pending", "burst", "big", "unwind"]
+    scen = ["normal", "big", "quit", "quit2", "pending", "burst", "escsize", "unwind"]
     recs = [{"id": i, "seed": ctx.seed * 100000 + i, "scenario": scen[i % len(scen)]} for i in range(n)]
     nproc = 8
     jobs = []
